@@ -39,7 +39,7 @@ func ManageCanaryDeployment(client client.Client, daemonset *v1alpha1.ExtendedDa
 		result.Result = requeuePromptly()
 	}
 
-	return result, nil
+	return result, err
 }
 
 // manageCanaryStatus manages ReplicaSet status in Canary state.
